@@ -19,6 +19,8 @@
 package thrift
 
 import (
+	"fmt"
+	"github.com/cloudwego/dynamicgo/meta"
 	"io"
 
 	"github.com/cloudwego/dynamicgo/internal/native"
@@ -36,10 +38,11 @@ func (p *BinaryProtocol) SkipNative(fieldType Type, maxDepth int) (err error) {
 	}
 	fsm := types.NewTStateMachine()
 	ret := native.TBSkip(fsm, &p.Buf[p.Read], left, uint8(fieldType))
+	types.FreeTStateMachine(fsm)
 	if ret < 0 {
-		return
+		// the native skipper reports truncated or invalid data with a negative code
+		return meta.NewError(meta.ErrRead, fmt.Sprintf("native skip failed with code %d", ret), nil)
 	}
 	p.Read += int(ret)
-	types.FreeTStateMachine(fsm)
 	return nil
 }
